@@ -30,15 +30,39 @@ func init() {
 				for len(d) < 12 {
 					d = "0" + d
 				}
-				// phones ending in 99 have no key at all: such a connection is served but never registered
+				// phones ending in 99 have no key at all: such a connection is served but never registered; phones ending in 98
+				// are registered by their authentication only (whatever comes before it is served, not registered)
+				if d[10:12] == "98" && m.JTMessage.Header.ID != 0x0102 {
+					return "", false
+				}
 				return strings.TrimLeft(d[8:10], "0"), d[10:12] != "99"
 			}
 		}
 		l := startLive(opts)
+		// an application that sends a command from inside its join callback (say, a parameter query to the terminal that has just
+		// arrived, or - here - to a key that is not online): the registry answers it like any other call, at once
+		var joins atomic.Int64
+		l.onJoin = func(c int, key string, err error) {
+			if err != nil || joins.Add(1)%5 != 0 {
+				return
+			}
+			t0 := time.Now()
+			m := l.g.SendActiveMessage(service.NewActiveMessage("13699990000", consts.P8104QueryTerminalParams, nil, 300*time.Millisecond))
+			ms := time.Since(t0).Milliseconds()
+			kind := "nil"
+			if m != nil {
+				kind = errKind(m.ExtensionFields.Err)
+			}
+			l.rec.log(c, "R", "assert", "ok", kind == "notexist" && ms < 400, "what", "CommandFromInsideTheJoinCallbackNotAnsweredAtOnce", "kind", kind, "ms", ms)
+		}
 		r := newRand(1111)
 		phones := make([][]byte, nkeys)
 		for i := range phones {
 			phones[i] = []byte{0x01, 0x36, 0x00, 0x00, byte(i/10%10<<4 | i%10), byte(r.Intn(10)<<4 | r.Intn(10))}
+		}
+		if opts.keyFunc == nil {
+			phones[0] = make([]byte, 6)                                    // the all-zero phone: its key is "000000000000"
+			phones[nkeys-1] = []byte{0, 0, 0, 0, 0x07, phones[nkeys-1][5]} // leading zeros: the key is the number without them
 		}
 		var kid atomic.Int64
 		var wg sync.WaitGroup
@@ -75,6 +99,20 @@ func init() {
 					}
 					t := l.dial(ph, 0)
 					t.serial = rr.Intn(65000)
+					if opts.keyFunc != nil && rr.Intn(4) == 0 {
+						// registration and authentication in one write, then an immediate reset: the reply to the first (written before
+						// the connection has a key) fails while the reader is about to join with the second
+						t.close(false)
+						ph98 := append(append([]byte{}, ph[:5]...), 0x98)
+						t = l.dial(ph98, 0)
+						reg := append(make([]byte, 25+8), []byte("A12345")...)
+						t.send(append(t.frame(0x0100, reg), t.frame(0x0102, asciiDigits(ph98))...))
+						if rr.Intn(2) == 0 {
+							time.Sleep(time.Duration(rr.Intn(400)) * time.Microsecond)
+						}
+						t.close(true)
+						continue
+					}
 					switch rr.Intn(9) {
 					case 6: // a terminal-sent 0x8003 ahead of the joining heartbeat, both in one write, then an immediate reset:
 						// the writer's first write fails while the reader is joining
